@@ -85,6 +85,15 @@ type coreCfg struct {
 	AckNoDelay bool `json:"acknodelay"`
 	WriteDelay bool `json:"writedelay"`
 	Style      int  `json:"style"` // 0: session style (flush, re-arm at the returned interval); 1: public Update/Check loop
+	Retune     bool `json:"retune,omitempty"` // a second NoDelay call with nodelay = -1 ("leave the mode as it is") follows the first
+}
+
+// minRTO: the minimum retransmission timeout the configuration asks for.
+func (c coreCfg) minRTO() uint32 {
+	if c.NoDelay != 0 {
+		return IKCP_RTO_NDL
+	}
+	return IKCP_RTO_MIN
 }
 
 type appWrite struct {
@@ -262,6 +271,9 @@ func newSimCore(rec *vrec, desc any, cfgA, cfgB coreCfg, appA, appB appScript, f
 		}
 		e.k.WndSize(cfg.SndWnd, cfg.RcvWnd)
 		e.k.NoDelay(cfg.NoDelay, cfg.Interval, cfg.Resend, cfg.NC)
+		if cfg.Retune {
+			e.k.NoDelay(-1, cfg.Interval, cfg.Resend, cfg.NC)
+		}
 		if cfg.Stream {
 			e.k.stream = 1
 		}
@@ -646,8 +658,8 @@ func (s *simCore) afterEvent(e *coreEnd, before snmpLoss) {
 	} else if int(out) > e.maxInflight {
 		e.maxInflight = int(out)
 	}
-	if k.rx_rto < k.rx_minrto || k.rx_rto > IKCP_RTO_MAX {
-		s.viol("C18 retransmission timeout outside [minimum, 60s]", "end %s: rx_rto=%d minrto=%d", e.name, k.rx_rto, k.rx_minrto)
+	if k.rx_rto < k.rx_minrto || k.rx_rto < e.cfg.minRTO() || k.rx_rto > IKCP_RTO_MAX {
+		s.viol("C18 retransmission timeout outside [minimum, 60s]", "end %s: rx_rto=%d, minimum configured %d (nodelay=%d), core's own minimum %d", e.name, k.rx_rto, e.cfg.minRTO(), e.cfg.NoDelay, k.rx_minrto)
 	}
 	if k.rmt_wnd == 0 {
 		e.sawRmtZero = true
@@ -989,6 +1001,7 @@ func randomCoreCfg(rng *vrng) coreCfg {
 		WriteDelay: rng.chance(0.3),
 		Style:      rng.intn(2),
 	}
+	c.Retune = rng.chance(0.3)
 	return c
 }
 
